@@ -300,6 +300,12 @@ pub fn insert_comments(p: &Prog, t: &mut Tape, policy: CommentPolicy, density: u
                     let c = t.pick_str(BLOCK_COMMENTS);
                     out.toks.push(comment_tok(c, false, tok.depth, tok.in_anon));
                     out.tags.insert("comment:inline-block");
+                    if t.chance(1, 4) {
+                        // two comments in a row in one gap
+                        let c = t.pick_str(&["{second comment}", "(* and another one *)", "{b}"]);
+                        out.toks.push(comment_tok(c, false, tok.depth, tok.in_anon));
+                        out.tags.insert("comment:two-in-a-row");
+                    }
                 } else {
                     let c = t.pick_str(LINE_COMMENTS);
                     out.toks.push(comment_tok(c, false, tok.depth, tok.in_anon));
